@@ -1,2 +1,105 @@
-From PLV Require Import Num.SynthModel.
-Theorem placeholder_c14 : True. Proof. exact I. Qed.
+(* C14 Unitary synthesis reproduces any unitary.
+   Static part.  (1) The circuit skeletons emitted by two_qubit_decomposition are the four templates transcribed in
+   Num/SynthModel.v; they contain 0,1,2,3 CNOTs and no other two-wire operator.  (2) Soundness of the fixed-point interval
+   checker that bounds |circuit - U| per instance (tie V): intervals of integers scaled by K = 2^60, outward rounding.
+   Generated part (coq/Gen/C14/*.v, every run): skeleton checks and distance checks evaluated by vm_compute on the circuits
+   returned by the real implementation, and reflection obligations  cols_ok ... = true  for the circuit templates with
+   FORMAL angles (universal in the angles through Lin/PVecSound.cols_ok_forall, re-exported below). *)
+From Coq Require Import List Arith ZArith Bool Reals.
+From Coquelicot Require Import Complex.
+From PLV Require Import Alg.Poly Alg.PolyEval Alg.Angles Lin.Vec Lin.VecHom Lin.PVec Lin.PVecSound Num.SynthModel Num.SynthProofs.
+Import ListNotations.
+
+(* ---- at most three CNOTs *)
+Theorem two_qubit_templates_at_most_three_cnots : forall t, In t two_qubit_templates -> (cnot_count t <= 3)%nat.
+Proof. exact templates_cnot_le3. Qed.
+Print Assumptions two_qubit_templates_at_most_three_cnots.
+
+Theorem template_k_has_k_cnots : forall k, (k <= 3)%nat -> cnot_count (template_of k) = k.
+Proof. exact template_cnot_count. Qed.
+Print Assumptions template_k_has_k_cnots.
+
+(* any emitted skeleton accepted by the per-run check (global phase optional) is one of the templates, hence <= 3 CNOTs *)
+Theorem accepted_two_qubit_skeleton_is_a_template : forall s, two_qubit_skeleton_ok s = true ->
+  exists k, (k <= 3)%nat /\ strip_phase s = template_of k /\ cnot_count s = k.
+Proof. exact two_qubit_skeleton_class. Qed.
+Print Assumptions accepted_two_qubit_skeleton_is_a_template.
+
+Theorem accepted_two_qubit_skeleton_at_most_three_cnots : forall s, two_qubit_skeleton_ok s = true -> (cnot_count s <= 3)%nat.
+Proof. exact two_qubit_skeleton_cnots. Qed.
+Print Assumptions accepted_two_qubit_skeleton_at_most_three_cnots.
+
+Theorem template_two_wire_operators_are_cnots : forall t o, In t two_qubit_templates -> In o t -> multiwire o = true -> fst o = GCNOT.
+Proof. exact templates_only_cnot. Qed.
+Print Assumptions template_two_wire_operators_are_cnots.
+
+Theorem cnot_count_additive : forall a b, cnot_count (a ++ b) = (cnot_count a + cnot_count b)%nat.
+Proof. exact cnot_count_app. Qed.
+Print Assumptions cnot_count_additive.
+
+(* ---- interval arithmetic: x is enclosed by (lo, hi) when lo <= x * 2^60 <= hi *)
+Theorem interval_add_sound : forall x y a b, inF x a -> inF y b -> inF (x + y) (fadd a b).
+Proof. exact fadd_sound. Qed.
+Print Assumptions interval_add_sound.
+
+Theorem interval_mul_sound : forall x y a b, inF x a -> inF y b -> inF (x * y) (fmul a b).
+Proof. exact fmul_sound. Qed.
+Print Assumptions interval_mul_sound.
+
+Theorem exact_rational_enclosed : forall a d, (0 < d)%Z -> inF (IZR a / IZR d) (f_of_qz (a, d)).
+Proof. exact f_of_qz_sound. Qed.
+Print Assumptions exact_rational_enclosed.
+
+(* ---- the per-instance check: for ALL complex gate matrices and unitaries lying in the given enclosures, a passed check
+   means every entry of (circuit - U) has squared modulus <= b2 / K^2.  c_capply / c_basis is the circuit semantics over
+   Coquelicot's C that the symbolic engine (C10) is also proved against. *)
+Theorem interval_check_sound : forall n gatesI gatesC UI UC b2,
+  Forall2 gate_in gatesI gatesC ->
+  Forall2 (Forall2 (fun a z => inC z a)) UI UC ->
+  dist_check n gatesI UI b2 = true ->
+  length UC = (2 ^ n)%nat /\
+  forall c colC, nth_error UC c = Some colC ->
+    Forall2 (fun g w => (Cmod2 (Cminus g w) * (KR * KR) <= IZR b2)%R) (c_capply n gatesC (c_basis n c)) colC.
+Proof. exact SynthProofs.interval_check_sound. Qed.
+Print Assumptions interval_check_sound.
+
+Theorem distance_bound_meaning : forall z, (Cmod2 z * (KR * KR) <= IZR bound2)%R -> (Cmod2 z <= 1 / 100000000000000)%R.
+Proof. exact interval_check_entry_bound. Qed.
+Print Assumptions distance_bound_meaning.
+
+(* ---- the check as evaluated per run (check_case of tie V): U is the EXACT matrix over Q(zeta_8) written in the case
+   (z8C: a + b z + c z^2 + d z^3 with z = exp(i pi/4), rational a,b,c,d); the enclosure of sqrt(1/2) is verified by the
+   check itself.  Only hypothesis left: the true gate matrices lie in the supplied gate enclosures. *)
+Theorem check_dist_sound : forall x gatesC, check_dist x = true -> Forall2 gate_in (dc_gates x) gatesC ->
+  forall c colX, nth_error (dc_U x) c = Some colX ->
+    Forall2 (fun g w => (Cmod2 (Cminus g (z8C w)) <= 1 / 100000000000000)%R) (c_capply (dc_n x) gatesC (c_basis (dc_n x) c)) colX.
+Proof. exact SynthProofs.check_dist_sound. Qed.
+Print Assumptions check_dist_sound.
+
+Theorem sqrt_half_enclosure_verified : forall h, half_ok h = true -> inF (sqrt (1 / 2)) h.
+Proof. exact half_ok_sound. Qed.
+Print Assumptions sqrt_half_enclosure_verified.
+
+(* ---- template identities with formal angles: what a generated obligation means (for every real value of the angles) *)
+Theorem template_identity_forall_angles :
+  forall hz D n circ ows M cols, (0 < hz)%Z -> cols_ok hz n circ ows M cols = true ->
+  forall (thetas : list R) c, In c cols ->
+    c_capply n (map (evg (aenv hz D thetas)) circ) (c_basis n c)
+    = c_apply_gate n ows (map (map (peval (aenv hz D thetas))) M) (c_basis n c).
+Proof. exact cols_ok_forall. Qed.
+Print Assumptions template_identity_forall_angles.
+
+Theorem template_unitary_forall_angles : forall hz D M, (0 < hz)%Z -> is_unitary hz M = true ->
+  forall thetas : list R, let Mc := map (map (peval (aenv hz D thetas))) M in c_mmul (c_madj Mc) Mc = c_mident (length M).
+Proof. exact is_unitary_forall. Qed.
+Print Assumptions template_unitary_forall_angles.
+
+(* ---- non-vacuity *)
+Example identity_circuit_accepted : dist_check 1 [] [[cone; czero]; [czero; cone]] bound2 = true.
+Proof. vm_compute. reflexivity. Qed.
+Example wrong_circuit_rejected : dist_check 1 [] [[czero; cone]; [cone; czero]] bound2 = false.
+Proof. vm_compute. reflexivity. Qed.
+Example three_cnot_skeleton_accepted : check_skel (ETwo, tmpl3 ++ [(GPhase, [])], 3%nat) = true.
+Proof. vm_compute. reflexivity. Qed.
+Example four_cnot_skeleton_rejected : check_skel (ETwo, tmpl3 ++ [(GCNOT, [0%nat; 1%nat])], 4%nat) = false.
+Proof. vm_compute. reflexivity. Qed.
